@@ -84,7 +84,8 @@ FinalOK == /\ stop = T.fin.stop /\ pver = T.fin.pver /\ sched = T.fin.sched
                  /\ \A j \in 1..Len(cbs[i]) : cbs[i][j][1] = T.fin.cbs[i][j][1]
 
 \* progress register: number of matched events, +1 when the run is complete and the final state agrees
-Progress == Len(hist) + (IF pc = "Done" /\ Len(hist) = Len(T.ev) /\ FinalOK THEN 1 ELSE 0)
+\* (a run ended by a raising user callback - cfg.again = "abort" - is complete in "Aborted")
+Progress == Len(hist) + (IF pc \in {"Done", "Aborted"} /\ Len(hist) = Len(T.ev) /\ FinalOK THEN 1 ELSE 0)
 Track == TLCSet(tid, IF Progress > TLCGet(tid) THEN Progress ELSE TLCGet(tid))
 
 \* the invariants of Train are evaluated on every state of every accepted prefix
